@@ -29,6 +29,8 @@ const (
 	recRP    = recNThr + 1
 	recOP    = recNThr + 2
 	recUnit  = 100 * time.Millisecond
+
+	recWatchdog = 120 * time.Second // an execution lasts ~3 s
 )
 
 var scriptOps = map[string][]string{
@@ -44,6 +46,7 @@ type rctx struct {
 	s, ttl               int
 	accept               bool
 	sawGet               bool
+	done                 int
 	evicting             bool
 	closeEvents          int
 	hold                 time.Duration
@@ -143,13 +146,16 @@ func (r *recorder) hook(point string, args ...any) {
 		out := args[2].(string)
 		r.startTokenRequest(c)
 		c.sawGet = true
-		r.emit("get", "t", c.t, "s", r.sidSlot[sid], "out", out)
+		tid := c.t
 		switch out {
 		case "miss", "mismatch":
 			r.busy[c.t] = false
+			c.done = c.t
+			c.t = 0
 		case "evict":
 			c.evicting = true
 		}
+		r.emit("get", "t", tid, "s", r.sidSlot[sid], "out", out)
 	case "sticky.resume.locked", "sticky.delete.locked":
 		if c == nil {
 			return
@@ -226,8 +232,9 @@ func (r *recorder) onClose(st *sessState) {
 	if v, ok := r.ctxs.Load(g); ok {
 		c := v.(*rctx)
 		actor = c.t
-		if c.evicting {
+		if c.evicting && c.t != 0 {
 			r.busy[c.t] = false
+			c.t = 0
 		}
 	} else if _, ok := r.opG.Load(g); ok {
 		actor = recOP
@@ -421,13 +428,14 @@ func (r *recorder) client(seed int64, iters int, spread time.Duration, wg *sync.
 		r.ctxs.Delete(g)
 		r.mu.Lock()
 		switch {
+		case c.t != 0:
+			// plain requests finish here; for any other request this is a fallback — its own
+			// completion event (release / del_finish) did not fire, which the specification will judge
+			r.emit("finish", "t", c.t)
+			r.busy[c.t] = false
+			c.t = 0
 		case c.kind == "plain":
-			if c.t != 0 {
-				r.emit("finish", "t", c.t)
-				r.busy[c.t] = false
-			} else {
-				r.problems = append(r.problems, fmt.Sprintf("plain request never reached the handler: http %d", rec.Code))
-			}
+			r.problems = append(r.problems, fmt.Sprintf("plain request never reached the handler: http %d", rec.Code))
 		case !c.sawGet:
 			t := r.lowestFree()
 			if c.kind == "resume" {
@@ -484,9 +492,24 @@ func recordOne(seed int64, clients, iters int, spread time.Duration) ([]map[stri
 			r.workers["w1"].dh.ClearDrain()
 		}
 	}()
-	wg.Wait()
+	// watchdog: a client that never returns is blocked inside the code under test (a leaked
+	// session lock).  The log then ends without the shutdown epilogue; Trace_Sticky cannot reach
+	// its rest state and rejects the execution.
+	allDone := make(chan struct{})
+	go func() { wg.Wait(); close(allDone) }()
+	stuck := false
+	select {
+	case <-allDone:
+	case <-time.After(recWatchdog):
+		stuck = true
+	}
 	close(stop)
 	<-opDone
+	if stuck {
+		r.mu.Lock()
+		defer r.mu.Unlock()
+		return append([]map[string]any{}, r.events...), r.problems, nil
+	}
 	g := curGID()
 	r.opG.Store(g, true)
 	for _, name := range []string{"w1", "w2", "w3"} {
